@@ -1,6 +1,6 @@
 (* C11 property theorems. Nothing but statements closed by `exact lemma`, Print Assumptions, and non-vacuity Examples. *)
 From Coq Require Import ZArith NArith List Bool.
-From OG Require Import C11.Model C11.Proofs.
+From OG Require Import C11.Model C11.Proofs C11.ProofsRange.
 Import ListNotations.
 Open Scope Z_scope.
 
@@ -170,6 +170,41 @@ Theorem without_database_key : forall m gid, m_db m = [] ->
   c_typ (cfg_at m gid) = c_typ (m_cfg m).
 Proof. exact no_db_key. Qed.
 
+(* ------------------------------------------------------------------ range sharding after re-sharding *)
+(* A range-sharded group whose key ranges tile the key space (range_chain: first Min open, each Max = the next Min and
+   strictly above its own Min, last Max open): DestShard returns a shard for EVERY key, that shard's half-open range
+   [Min, Max) contains the key, and no other shard of the group contains it - a key equal to a split point belongs to the
+   shard that STARTS there. *)
+Theorem range_dest_shard_unique : forall g key, range_chain [] (g_shards g) ->
+  exists s, dest_shard key g = Some s /\ In s (g_shards g) /\ contain s key = true /\
+            forall s', In s' (g_shards g) -> contain s' key = true -> s' = s.
+Proof. exact range_dest_unique_proof. Qed.
+Print Assumptions range_dest_shard_unique.
+
+(* Such groups are what the catalogue operations produce: CreateShardGroupWithBounds (Data.ReSharding) with non-empty,
+   strictly increasing split points, and CreateShardGroup afterwards (one shard owning everything for the first group of a
+   policy, else the ranges of the newest group). *)
+Theorem range_chain_resharded : forall g bounds,
+  bounds_sorted [] bounds -> shard_ranges g = ranges_of [] bounds -> range_chain [] (g_shards g).
+Proof. exact range_chain_resharded_proof. Qed.
+Theorem range_chain_created : forall existing g,
+  Forall (fun x => range_chain [] (g_shards x)) existing -> shard_ranges g = created_ranges existing ->
+  range_chain [] (g_shards g).
+Proof. exact range_chain_created_proof. Qed.
+Print Assumptions range_chain_created.
+
+(* Read side, range sharding: for every alternative (tag set) the condition yields, EVERY shard of the group whose range
+   holds some key extending the prefix built from that alternative (measurement name + the leading shard-key pairs the
+   alternative binds) is consulted. With C11_prune_sound: the shard of every matching row is among them. *)
+Theorem range_candidates_consulted : forall (hash : str -> N) c g e tss ts s rest,
+  c_typ c = Range ->
+  cond_tags repaired (c_tagkeys c) e = Some tss -> In ts tss -> In s (g_shards g) ->
+  (forall i, (i < length (g_shards g))%nat -> In i (g_alive g)) ->
+  contain s ((c_mst c ++ key_suffix (fst (sel_keys (c_sk c) (sort_tags ts)))) ++ rest) = true ->
+  In s (target_group hash repaired c g (Some e)).
+Proof. intros hash c g e tss ts s rest. exact (range_candidates_consulted_proof hash repaired c g e tss ts s rest eq_refl). Qed.
+Print Assumptions range_candidates_consulted.
+
 (* Hint queries (full_series), hash sharding, repaired key construction (the measurement's shard-key tags are selected from
    the single tag set, no pruning if one is not bound): the shard of every row satisfying the condition is consulted. A
    measurement without a shard key hashes name + all tags: sound when the tag set is the row's full tag set, which is what
@@ -186,6 +221,22 @@ Proof.
   exact (hint_prune_sound_proof hash repaired c g cond p s eq_refl (or_introl eq_refl)).
 Qed.
 Print Assumptions C11_hint_prune_sound.
+
+(* Hint queries, hash AND range sharding, full_series AND specific_series, with the range repair (the key is looked up by
+   key range when the measurement is range-sharded, as the write path does): the shard of every row the hinted query
+   promises to return is consulted. *)
+Theorem C11_hint_kind_prune_sound : forall (hash : str -> N) c g cond p s specific,
+  wf_group c g -> wf_point p ->
+  (c_sk c = [] -> match cond with
+                  | Some e => forall ts, cond_tags repaired (c_tagkeys c) e = Some [ts] -> sort_tags ts = p_tags p
+                  | None => True end) ->
+  route_in hash c g p = Some s -> eval_cond c cond p = true ->
+  In s (target_hint_kind hash specific true repaired c g cond).
+Proof.
+  intros hash c g cond p s specific.
+  exact (hint_kind_sound_proof hash repaired c g cond p s specific eq_refl (or_introl eq_refl)).
+Qed.
+Print Assumptions C11_hint_kind_prune_sound.
 
 (* ------------------------------------------------------------------ non-vacuity: the hypotheses are satisfiable *)
 Definition B (l : list N) : str := l.
@@ -238,4 +289,28 @@ Example ex_route_total_hyps :
 Proof.
   split; [reflexivity|]. split; [repeat constructor|]. split; [repeat constructor|].
   intros g [<-|[]]. unfold wf_route. simpl. split; [discriminate|]. repeat constructor.
+Qed.
+
+(* range sharding after re-sharding at the shard keys of host=h2 and host=h5: the split points are non-empty and strictly
+   increasing, the three shards tile the key space, the series host=h2 - whose key EQUALS the first split point - is
+   stored in the shard that starts there (shard 3), and the query host='h2' consults exactly that shard *)
+Definition s_k (v : N) : str := s_cpu ++ [44; 104; 111; 115; 116; 61; 104; v]%N.     (* "cpu_0000,host=h<v>" *)
+Definition ex_rgroup : group :=
+  {| g_id := 2%N; g_start := 1700001000000000001; g_end := 1700002800000000000; g_deleted := false; g_trunc := None;
+     g_shards := [ {| s_id := 2%N; s_min := []; s_max := s_k 50 |}; {| s_id := 3%N; s_min := s_k 50; s_max := s_k 53 |};
+                   {| s_id := 4%N; s_min := s_k 53; s_max := [] |} ];
+     g_alive := seq 0 3 |}.
+Definition ex_rcfg : cfg :=
+  {| c_mst := s_cpu; c_tagkeys := [s_dc; s_host]; c_sk := [s_host]; c_typ := Range; c_dur := 3600000000000;
+     c_groups := [ex_rgroup]; c_mstidx := None |}.
+Example ex_range_split_point :
+  bounds_sorted [] [s_k 50; s_k 53] /\ shard_ranges ex_rgroup = ranges_of [] [s_k 50; s_k 53] /\
+  range_chain [] (g_shards ex_rgroup) /\
+  option_map s_id (dest_shard (s_k 50) ex_rgroup) = Some 3%N /\
+  map s_id (target_group xxh64 repaired ex_rcfg ex_rgroup (Some (EEq 0%N s_host [104; 50]%N))) = [3%N] /\
+  map s_id (target_group xxh64 repaired ex_rcfg ex_rgroup (Some (EEq 0%N s_dc [100]%N))) = [2%N; 3%N; 4%N].
+Proof.
+  assert (Hb : bounds_sorted [] [s_k 50; s_k 53]) by (simpl; repeat split; vm_compute; reflexivity).
+  split; [exact Hb|]. split; [reflexivity|]. split; [exact (range_chain_resharded ex_rgroup _ Hb eq_refl)|].
+  vm_compute. repeat split.
 Qed.
